@@ -707,3 +707,59 @@ func c18UpdateDuringProbe(x *X) {
 func init() {
 	register(&Scenario{Prop: "C18", Name: "c18/update-during-probe", Quick: []Bound{{0, 0}, {1, 0}}, Thorough: []Bound{{2, 0}}, Body: c18UpdateDuringProbe, MaxSteps: 100000, BudgetQ: 15})
 }
+
+// an outage shorter than a detector period: a live target refuses one call and is reachable again
+// before the next probe: after a few detector periods it is used again.
+func c18ShortOutage(x *X) {
+	sched := []rpc.Scheduling{rpc.RoundRobinScheduling, rpc.LeastTimeScheduling}[x.Choose(2)]
+	form := []int{cfCall, cfGo, cfRoundTrip, cfPing}[x.Choose(4)]
+	n := 2 + x.Choose(2)
+	addrs := []string{"a", "b", "c"}[:n]
+	s := newCliSys(x, sched, addrs...)
+	s.c.Tick = 50 * time.Millisecond
+	for _, a := range addrs {
+		s.rt.up[a] = true
+	}
+	s.tick(2)
+	for i := 0; i < n; i++ {
+		clientCall(s.c, form)
+	}
+	s.rt.up["a"] = false
+	hit := false
+	for i := 0; i < 2*n+2 && !hit; i++ {
+		from := len(s.rt.routed)
+		clientCall(s.c, form)
+		for _, r := range s.rt.userRoutes(from) {
+			hit = hit || r.addr == "a"
+		}
+		if sched == rpc.LeastTimeScheduling {
+			vt.Advance(60 * time.Millisecond) // (the next call is a probe of the next target; no detector period passes: 60 ms < 100 ms)
+			vs.Quiesce()
+			if vt.Elapsed()%(100*time.Millisecond) < 60*time.Millisecond && false {
+				break
+			}
+		}
+	}
+	s.rt.up["a"] = true // reachable again
+	s.tick(4)
+	from := len(s.rt.routed)
+	for i := 0; i < 3*n; i++ {
+		clientCall(s.c, form)
+		s.tick(1)
+	}
+	used := false
+	var seq []string
+	for _, r := range s.rt.userRoutes(from) {
+		seq = append(seq, r.addr)
+		used = used || r.addr == "a"
+	}
+	if hit && !used {
+		x.Fail("C18/recovered-target-unused/short-outage", "target a refused one %s call and was reachable again before the next detector period; four periods later none of %d calls (scheduling %d, %d targets) went to it: %v", cfNames[form], 3*n, sched, n, seq)
+	}
+	x.Outcome("sched=%d form=%s n=%d hit=%v used=%v", sched, cfNames[form], n, hit, used)
+	s.close()
+}
+
+func init() {
+	register(&Scenario{Prop: "C18", Name: "c18/short-outage", Quick: []Bound{{0, 0}, {1, 0}}, Thorough: []Bound{{2, 0}}, Body: c18ShortOutage, MaxSteps: 100000, BudgetQ: 15})
+}
